@@ -60,12 +60,18 @@ class _limit:
     def _raise(self, *a):
         raise _Timeout()
 
+    # the limit is on the CPU time of this process (a broken loop burns CPU; a machine that stalls because many checks run
+    # in parallel does not), with a wall-clock backstop at ten times the limit
     def __enter__(self):
         self.old = signal.signal(signal.SIGALRM, self._raise)
-        signal.setitimer(signal.ITIMER_REAL, self.seconds)
+        self.oldv = signal.signal(signal.SIGVTALRM, self._raise)
+        signal.setitimer(signal.ITIMER_REAL, 10 * self.seconds)
+        signal.setitimer(signal.ITIMER_VIRTUAL, self.seconds)
 
     def __exit__(self, *a):
+        signal.setitimer(signal.ITIMER_VIRTUAL, 0)
         signal.setitimer(signal.ITIMER_REAL, 0)
+        signal.signal(signal.SIGVTALRM, self.oldv)
         signal.signal(signal.SIGALRM, self.old)
         return False
 
@@ -158,8 +164,16 @@ def _call(f, *args, limit=20.0):
         with _limit(limit):
             r = f(*args)
     except _Timeout:
-        _DEAD.add(name)
-        return 'timeout', f'no result within {limit} s'
+        # a wall-clock limit can also expire because the whole machine stalled (many checks in parallel): the call is
+        # repeated once with three times the limit before the map is declared non-terminating
+        try:
+            with _limit(3 * limit):
+                r = f(*args)
+        except _Timeout:
+            _DEAD.add(name)
+            return 'timeout', f'no result within {limit} s, nor within {3 * limit} s when repeated'
+        except Exception as ex:   # noqa
+            return 'raised', f'{type(ex).__name__}: {ex}'
     except Exception as ex:   # noqa
         return 'raised', f'{type(ex).__name__}: {ex}'
     try:
@@ -496,6 +510,9 @@ def _chunks(lo, hi, size):
 def correspondence(ctx):
     warnings.simplefilter('ignore', RuntimeWarning)      # NumPy overflow warnings of fixed-width inputs: results are compared, not warnings
     fwd, inv = _impl()
+    # a degraded tie of a name-layer item widens the name families only, not the sweeps of the index maps
+    ctx.widen_names = any(u in NAME_ITEMS for u in ctx.untranslatable)
+    ctx.widen = any(u not in NAME_ITEMS for u in ctx.untranslatable)
     J = ctx.scale(10 ** 5, 10 ** 6)
     if ctx.widen:
         J = max(J, 2 * 10 ** 5)
@@ -768,6 +785,14 @@ def _zk():
 
 
 def _parse_name(Z, s):
+    """exception-safe front of _parse_name0 (a module without the two tables, odd strings: None)"""
+    try:
+        return _parse_name0(Z, s)
+    except Exception:   # noqa
+        return None
+
+
+def _parse_name0(Z, s):
     """real name -> (kind, ordinal, |m| of the column-name table, suffix), the structure `Model.C11.nameKey` describes;
     None when the string does not have that structure.  The two tables are read from the real module."""
     if not isinstance(s, str):
@@ -834,38 +859,66 @@ def _py_groups(lst):
     return list(d.items())
 
 
-def _magang_check(P, lst, groups):
-    """predicates of the pairing on the real code; returns a detail string or None"""
+def _magang_check2(P, lst, groups):
+    """-> (fail, note).  `fail`: what follows from the property — an exception, a wrong +-m pairing (the set of (n, |m|) keys),
+    a lost term (sum of magnitude^2 != sum of c^2; fewer entries in the name-keyed dict than classes).
+    `note`: consumer conventions that are NOT part of the property (order of the dict, magnitude / angle convention, key strings)."""
     exp = _magang_expect(lst, groups)
     if any(e[1] is None for e in exp):
-        return None
+        return None, None
+    note = None
     st, val = _call2(P.zernikes_to_magnitude_angle_nmkey, [tuple(x) for x in lst])
     if st != 'ok':
-        return f'zernikes_to_magnitude_angle_nmkey {st}: {val}'
+        return f'zernikes_to_magnitude_angle_nmkey {st}: {val}', None
     got = val
     if not isinstance(got, dict):
-        return f'zernikes_to_magnitude_angle_nmkey returned {type(got).__name__}'
-    gk = [tuple(int(x) for x in k) for k in got.keys()]
-    if gk != [k for k, _ in exp]:
-        return f'groups {gk[:6]}… but the (n, |m|) classes in order of first appearance are {[k for k, _ in exp][:6]}…'
-    for (k, (mag, ang)), v in zip(exp, got.values()):
-        gm, ga = float(v[0]), float(v[1])
-        if abs(gm - mag) > 1e-12 * max(1.0, abs(mag)) or abs(ga - ang) > 1e-9:
-            return f'group {k}: (magnitude, angle) = ({gm!r}, {ga!r}), expected ({mag!r}, {ang!r}) = (hypot, degrees(atan2(first, second)))'
+        return f'zernikes_to_magnitude_angle_nmkey returned {type(got).__name__}', None
+    try:
+        gk = [tuple(int(x) for x in k) for k in got.keys()]
+        energy = sum(float(v[0]) ** 2 for v in got.values())
+    except Exception as ex:   # noqa
+        return f'zernikes_to_magnitude_angle_nmkey: unusable result ({type(ex).__name__}: {ex})', None
+    ek = [k for k, _ in exp]
+    if sorted(gk) != sorted(ek):
+        only_g, only_e = sorted(set(gk) - set(ek))[:4], sorted(set(ek) - set(gk))[:4]
+        return (f'+-m pairing: the result has the groups {only_g}… that are no (n, |m|) class of the input / misses the classes {only_e}… '
+                f'({len(gk)} groups for {len(ek)} classes)'), None
+    total = sum(float(c) ** 2 for _, _, c in lst)
+    if abs(energy - total) > 1e-9 * max(1.0, total):
+        return f'a term is lost or counted twice: sum of magnitude^2 over the groups = {energy!r}, sum of c^2 over the terms = {total!r}', None
+    if gk != ek:
+        note = 'groups are not in order of first appearance'
+    else:
+        for (k, (mag, ang)), v in zip(exp, got.values()):
+            gm, ga = float(v[0]), float(v[1])
+            if abs(gm - mag) > 1e-12 * max(1.0, abs(mag)) or abs(ga - ang) > 1e-9:
+                note = f'group {k}: (magnitude, angle) = ({gm!r}, {ga!r}); the model has ({mag!r}, {ang!r}) = (hypot, degrees(atan2(first, second)))'
+                break
     st, val = _call2(P.zernikes_to_magnitude_angle, [tuple(x) for x in lst])
     if st != 'ok':
-        return f'zernikes_to_magnitude_angle {st}: {val}'
+        return f'zernikes_to_magnitude_angle {st}: {val}', note
     named = val
-    if len(named) != len(exp):
-        return (f'zernikes_to_magnitude_angle returns {len(named)} entries for {len(exp)} (n, |m|) classes: two classes share a name '
-                f'and one overwrites the other')
-    for (k, _), (nk, nv), v in zip(exp, named.items(), got.values()):
-        full = P.nm_to_name(*k)
-        st_ = _parse_name(_zk()[1], full)
-        want = full if (st_ is None or st_[0] in (0, 2, 3)) else ' '.join(full.split(' ')[:-1])     # Tilt and the general terms lose the suffix
-        if nk != want or (float(nv[0]), float(nv[1])) != (float(v[0]), float(v[1])):
-            return f'class {k}: entry {nk!r}: {nv}; expected the name of the class without its X/Y/00°/45° suffix, {want!r}: {v}'
-    return None
+    if not isinstance(named, dict) or len(named) != len(exp):
+        return (f'zernikes_to_magnitude_angle returns {len(named) if hasattr(named, "__len__") else named!r} entries for {len(exp)} (n, |m|) '
+                f'classes: two classes share a key and one overwrites the other (a term is lost)'), note
+    if note is None and gk == ek:
+        for (k, _), (nk, nv), v in zip(exp, named.items(), got.values()):
+            full = P.nm_to_name(*k)
+            st_ = _parse_name(_zk()[1], full) if isinstance(full, str) else None
+            want = full if (st_ is None or st_[0] in (0, 2, 3)) else ' '.join(full.split(' ')[:-1])
+            try:
+                same_v = (float(nv[0]), float(nv[1])) == (float(v[0]), float(v[1]))
+            except Exception:   # noqa
+                same_v = False
+            if nk != want or not same_v:
+                note = f'class {k}: entry {nk!r}: {nv}; the model has the class name without suffix, {want!r}: {v}'
+                break
+    return None, note
+
+
+def _magang_check(P, lst, groups):
+    """property-level predicate only (see _magang_check2)"""
+    return _magang_check2(P, lst, groups)[0]
 
 
 def _topn_check(P, lst, k):
@@ -960,13 +1013,23 @@ def _coef_lists(ctx, fwd, count):
     return out
 
 
+NAME_ITEMS = ('name_accessor', 'spherical_accessor', 'nm_to_name', 'magang_key', 'magang_name_rule', 'names_table', 'names_m_table')
+
+
 def _names_correspondence(ctx):
+    """SCOPE: the names, the magnitude/angle dict, top_n and the bar plots CONSUME the index conventions; the property does not
+    say how names are spelled, numbered or ordered.  Property-level failures (red) are only: an exception on a valid order / a
+    valid coefficient list, two valid orders with one name (a term of an expansion is lost where names are keys), a wrong +-m
+    pairing, a lost term in zernikes_to_magnitude_angle(_nmkey).  Every other difference from the hand model (structure of the
+    string, word count, ordinal scheme, order of dict / top_n / bars, angle convention) is recorded as a consumer NOTE in the
+    evidence (`consumer-note:<family>` counters + notes) and never makes the run red."""
     P, Z = _zk()
+    wide = getattr(ctx, 'widen_names', ctx.widen)
     NN = ctx.scale(80, 400)
-    if ctx.widen:
+    if wide:
         NN = max(NN, 200)
     pairs = [(n, m) for n in range(NN + 1) for m in range(-n, n + 1, 2)]
-    lists = _coef_lists(ctx, None, ctx.scale(120, 1200) * (3 if ctx.widen else 1))      # degraded tie: three times the lists
+    lists = _coef_lists(ctx, None, ctx.scale(120, 1200) * (3 if wide else 1))      # degraded tie: three times the lists
     lines = []
     for a in range(0, len(pairs), 4000):
         lines.append('namekeys ' + ' '.join(f'{n} {m}' for n, m in pairs[a:a + 4000]))
@@ -977,7 +1040,13 @@ def _names_correspondence(ctx):
     for a in range(0, len(pairs), 4000):
         t = list(map(int, next(rep).split()))
         keys += [tuple(t[i:i + 5]) for i in range(0, len(t), 5)]
-    # ---- names: structure = model, and one-to-one
+    first_note = {}
+
+    def note(family, text):
+        ctx.hist[f'consumer-note:{family}'] += 1
+        first_note.setdefault(family, text)
+
+    # ---- names: one-to-one (property level); structure = model (consumer note)
     seen = {}
     nbad = 0
     for (n, m), key5 in zip(pairs, keys):
@@ -985,26 +1054,35 @@ def _names_correspondence(ctx):
         case = {'n': n, 'm': m}
         ctx.case('name', case, nontrivial=n >= 2, tag=f'kind{key[0]}' + (f'suf{key[3]}' if key[0] == 4 else ''))
         args = (n, m) if (n + m) % 3 else (np.int64(n), np.int64(m))
-        st, val = _call2(P.nm_to_name, *args)
-        name = val
-        got = _parse_name(Z, name) if st == 'ok' else None
-        if st == 'ok' and isinstance(name, str) and got == key and len(name.split(' ')) != words and nbad < 3:
-            nbad += 1
-            ctx.disagree('name', case, name, f'{words} words')
-            ctx.pred_fail('name', case, f'nm_to_name({n}, {m}) = {name!r} has {len(name.split(" "))} blank-separated words, a name of kind {key[0]} has {words}')
-        if got != key and nbad < 3:
-            nbad += 1
-            ctx.disagree('name', case, name if st == 'ok' else f'{st}: {val}', list(key))
-            ctx.pred_fail('name', case, f'nm_to_name({n}, {m}) = {name!r}: structure {got}, the convention has (kind, ordinal, |m|, suffix) = {key}')
-        if st == 'ok':
-            if name in seen and nbad < 3:
+        st, name = _call2(P.nm_to_name, *args)
+        if st != 'ok':
+            if nbad < 3:
                 nbad += 1
-                n0, m0 = seen[name]
-                c2 = {'n': n, 'm': m, 'n2': n0, 'm2': m0}
-                ctx.disagree('name', c2, name, 'a name of its own')
-                ctx.pred_fail('name', c2, f'nm_to_name({n0}, {m0}) = nm_to_name({n}, {m}) = {name!r}: the names are not one-to-one')
-            seen.setdefault(name, (n, m))
-    # ---- pairing of the +-m terms
+                ctx.disagree('name', case, f'{st}: {name}', 'a name')
+                ctx.pred_fail('name', case, f'nm_to_name({n}, {m}) {st}: {name} (a valid order has no name)')
+            continue
+        got = _parse_name(Z, name)
+        if got != key:
+            note('name', f'nm_to_name({n}, {m}) = {name!r}: structure {got}, the hand model has (kind, ordinal, |m|, suffix) = {key}')
+        elif isinstance(name, str) and len(name.split(' ')) != words:
+            note('name', f'nm_to_name({n}, {m}) = {name!r} has {len(name.split(" "))} words, the hand model {words}')
+        try:
+            dup = name in seen
+        except TypeError:
+            dup = False
+        if dup and nbad < 3:
+            nbad += 1
+            n0, m0 = seen[name]
+            c2 = {'n': n, 'm': m, 'n2': n0, 'm2': m0}
+            ctx.disagree('name', c2, name, 'a name of its own')
+            ctx.pred_fail('name', c2, f'nm_to_name({n0}, {m0}) = nm_to_name({n}, {m}) = {name!r}: two valid orders share one name '
+                          '(where names are keys — zernikes_to_magnitude_angle — one term overwrites the other)')
+        if not dup:
+            try:
+                seen[name] = (n, m)
+            except TypeError:
+                pass
+    # ---- pairing of the +-m terms / no lost term (property level); conventions of the consumers (notes)
     nbad = 0
     for (tag, lst) in lists:
         t = next(rep).split()
@@ -1015,40 +1093,54 @@ def _names_correspondence(ctx):
             groups.append(((n_, a_), [int(x) for x in t[i + 3:i + 3 + ln]]))
             i += 3 + ln
         npair = sum(1 for _, p in groups if len(p) == 2)
-        case = {'coefs': [list(x) for x in lst]}
         ctx.case('magang', {'tag': tag, 'len': len(lst), 'first': list(lst[0]), 'c': lst[-1][2]}, nontrivial=npair > 0 and len(groups) > npair,
                  tag=tag.split(':')[1].split('+')[0] + (':int' if tag.endswith('+int') else '') + (':pairs+singles' if 0 < npair < len(groups) else ':pairs' if npair else ':singles'))
-        d = _magang_check(P, lst, groups)
+        d, nt = _magang_check2(P, lst, groups)
+        if nt:
+            note('magang', nt)
         if d and nbad < 2:
             nbad += 1
             small = _shrink_coefs(P, lst, lambda l: _magang_check(P, l, _py_groups(l)))
             ctx.disagree('magang', {'coefs': small}, d, 'groups of the model')
             ctx.pred_fail('magang', {'coefs': small}, _magang_check(P, small, _py_groups(small)) or d)
-        # top_n ordering on the same coefficients (distinct |c| almost surely)
+        # top_n ordering on the same coefficients (distinct |c| almost surely): consumer, notes only
         k = int(ctx.rng.integers(1, len(lst) + 1))
         ctx.case('top_n', {'tag': tag, 'len': len(lst), 'k': k, 'c': lst[0][2]}, nontrivial=1 < k, tag='all' if k == len(lst) else 'some')
-        d = _topn_check(P, lst, k)
-        if d and nbad < 4:
-            nbad += 1
-            ctx.disagree('top_n', {'coefs': [list(x) for x in lst[:40]], 'k': min(k, len(lst[:40]))}, d, 'descending |coefficient|')
-            small = _shrink_coefs(P, lst, lambda l: _topn_check(P, l, min(k, len(l))))
-            ctx.pred_fail('top_n', {'coefs': small, 'k': min(k, len(small))}, _topn_check(P, small, min(k, len(small))) or d)
+        try:
+            d = _topn_check(P, lst, k)
+        except Exception as ex:   # noqa
+            d = f'result of top_n not understood ({type(ex).__name__}: {ex})'
+        if d:
+            note('top_n', d)
 
-
-    # ---- barplot_magnitudes: bars, labels and sort permutation (a few lists; matplotlib, Agg)
-    nb = ctx.scale(10, 60) * (3 if ctx.widen else 1)
-    for t, (tag, lst) in enumerate(lists[:nb]):
+    # ---- barplot_magnitudes: bars, labels and sort permutation (a few lists; matplotlib, Agg): consumer, notes only; the
+    #      family is skipped (with a note) when matplotlib / its Agg backend cannot be used
+    nb = ctx.scale(10, 60) * (3 if wide else 1)
+    try:
+        import matplotlib
+        matplotlib.use('Agg')
+        from matplotlib import pyplot as _plt    # noqa
+        have_mpl = True
+    except BaseException as ex:   # noqa  (a broken backend may raise anything)
+        have_mpl = False
+        ctx.notes.append(f'barplot family skipped: matplotlib / Agg backend not usable ({type(ex).__name__}: {ex})')
+    for t, (tag, lst) in enumerate(lists[:nb] if have_mpl else []):
         lst = lst[:60]
         sort, orient, err = bool(t % 2), ('h', 'v')[(t // 2) % 2], bool((t // 4) % 2)
+        try:
+            d = _barplot_check(P, lst, sort, orient, err)
+        except BaseException as ex:   # noqa
+            if isinstance(ex, KeyboardInterrupt):
+                raise
+            ctx.notes.append(f'barplot family stopped: {type(ex).__name__}: {ex}')
+            break
         ctx.case('barplot', {'tag': tag, 'len': len(lst), 'sort': sort, 'orientation': orient, 'c': lst[0][2]}, nontrivial=len(lst) > 2,
                  tag=('sorted' if sort else 'unsorted') + ':' + orient + (':err' if err else ''))
-        d = _barplot_check(P, lst, sort, orient, err)
-        if d and nbad < 6:
-            nbad += 1
-            small = _shrink_coefs(P, lst, lambda l: _barplot_check(P, l, sort, orient, err))
-            c = {'coefs': small, 'sort': sort, 'orientation': orient, 'errorbars': err}
-            ctx.disagree('barplot', c, d, 'one bar per class, same permutation for bars and labels')
-            ctx.pred_fail('barplot', c, _barplot_check(P, small, sort, orient, err) or d)
+        if d:
+            note('barplot', d)
+    for fam, text in first_note.items():
+        ctx.notes.append(f'consumer layer ({fam}), not part of the property — {ctx.hist[f"consumer-note:{fam}"]} difference(s) from the hand '
+                         f'model, recorded only; first: {text}')
 
 
 def _shrink_coefs(P, lst, fails):
@@ -1072,38 +1164,28 @@ def _shrink_coefs(P, lst, fails):
 
 
 def _names_search(ctx):
+    """property-level predicates of the name layer only: an exception on a valid order, two valid orders with one name, wrong
+    pairing / lost term in zernikes_to_magnitude_angle(_nmkey)"""
     P, Z = _zk()
     seen = {}
     for n in range(0, ctx.scale(60, 120)):
         for m in range(-n, n + 1, 2):
-            st, val = _call2(P.nm_to_name, n, m)
-            name = val
-            if st != 'ok' or _parse_name(Z, name) != _name_key(n, m):
-                return {'item': 'name', 'input': {'n': n, 'm': m},
-                        'detail': f'nm_to_name({n}, {m}) = {name!r}, expected structure {_name_key(n, m)}'}
-            if name in seen:
-                n0, m0 = seen[name]
-                return {'item': 'name', 'input': {'n': n, 'm': m, 'n2': n0, 'm2': m0},
-                        'detail': f'nm_to_name({n0}, {m0}) = nm_to_name({n}, {m}) = {name!r}: not one-to-one'}
-            seen[name] = (n, m)
+            st, name = _call2(P.nm_to_name, n, m)
+            if st != 'ok':
+                return {'item': 'name', 'input': {'n': n, 'm': m}, 'detail': f'nm_to_name({n}, {m}) {st}: {name}'}
+            try:
+                if name in seen:
+                    n0, m0 = seen[name]
+                    return {'item': 'name', 'input': {'n': n, 'm': m, 'n2': n0, 'm2': m0},
+                            'detail': f'nm_to_name({n0}, {m0}) = nm_to_name({n}, {m}) = {name!r}: two valid orders share one name'}
+                seen[name] = (n, m)
+            except TypeError:
+                pass
     for tag, lst in _coef_lists(ctx, None, 60):
         d = _magang_check(P, lst, _py_groups(lst))
         if d:
             small = _shrink_coefs(P, lst, lambda l: _magang_check(P, l, _py_groups(l)))
             return {'item': 'magang', 'input': {'coefs': small}, 'detail': _magang_check(P, small, _py_groups(small)) or d}
-        for k in (1, 2, max(1, len(lst) // 2), len(lst)):
-            k = min(k, len(lst))
-            d = _topn_check(P, lst, k)
-            if d:
-                small = _shrink_coefs(P, lst, lambda l: _topn_check(P, l, min(k, len(l))))
-                return {'item': 'top_n', 'input': {'coefs': small, 'k': min(k, len(small))}, 'detail': d}
-    for t, (tag, lst) in enumerate(_coef_lists(ctx, None, 8)):
-        lst = lst[:40]
-        for sort in (False, True):
-            d = _barplot_check(P, lst, sort, 'hv'[t % 2], False)
-            if d:
-                small = _shrink_coefs(P, lst, lambda l: _barplot_check(P, l, sort, 'hv'[t % 2], False))
-                return {'item': 'barplot', 'input': {'coefs': small, 'sort': sort, 'orientation': 'hv'[t % 2], 'errorbars': False}, 'detail': d}
     return None
 
 
@@ -1113,8 +1195,9 @@ def _names_replay(item, c):
         n, m = c['n'], c['m']
         st, val = _call2(P.nm_to_name, n, m)
         name = val
-        print(f'nm_to_name({n}, {m}) -> {st} {name!r}; structure {_parse_name(Z, name) if st == "ok" else None}, the convention has {_name_key(n, m)}')
-        bad = st != 'ok' or _parse_name(Z, name) != _name_key(n, m)
+        print(f'nm_to_name({n}, {m}) -> {st} {name!r}; structure {_parse_name(Z, name) if st == "ok" else None}, the hand model has {_name_key(n, m)} '
+              '(a different spelling / scheme is not a violation; an exception or a shared name is)')
+        bad = st != 'ok'
         if 'n2' in c:
             other = _call2(P.nm_to_name, c['n2'], c['m2'])
             print(f'nm_to_name({c["n2"]}, {c["m2"]}) -> {other}')
@@ -1191,7 +1274,7 @@ def search(ctx, hints):
     # corpus / hints first
     for pf in hints.get('pred_failures', []):
         c = pf['case']
-        if 'j' in c or pf['item'] in ('name', 'magang', 'top_n', 'barplot'):
+        if 'j' in c or pf['item'] in ('name', 'magang'):
             return {'item': pf['item'], 'input': c, 'detail': pf['detail']}
     best = None
     for conv in CONVS:
@@ -1341,6 +1424,15 @@ MANIFEST_ENTRY = {
              'specification partitions the positions (magang_grouping_partition), the dict keys of zernikes_to_magnitude_angle are one-to-one on '
              'the classes at structure level (gen_keepsWholeName + magang_name_keys_injective), suffix X/00 <-> m>0 and Noll even index <-> '
              'cosine NAME (name_suffix_iff_cosine, noll_even_iff_cosine_name). '
+             'SCOPE GUARD: names, the magnitude/angle dict, top_n and the bar plots are CONSUMERS of the conventions, not part of the statement. '
+             'Every name-layer translator item is first executed on a grid of valid orders (n<=40); when the source follows another naming '
+             'scheme / spelling / key rule than the hand model the item is untranslatable (TIE-DEGRADED, name families widened, index sweeps not) '
+             'and its theorems speak about the hand model only. RED at the name layer is only what follows from the statement: an exception on '
+             'a valid order / list, two valid orders with ONE name (terms collapse where names are keys), a wrong +-m grouping (set of (n,|m|) keys), '
+             'a lost term (sum of magnitude^2 != sum of c^2, or fewer named entries than classes). String structure, word count, ordinal scheme, '
+             'X/Y or degree glyph, order of dict / top_n / bars, angle convention are recorded as consumer notes in the evidence and never make '
+             'the run red; the barplot family is skipped with a note when matplotlib/Agg is unusable. Wall-clock guards are CPU-time limits '
+             '(a stalled machine is not a non-terminating map). '
              'Compared only: that the real strings have that structure and are pairwise different (all valid n<=80/400), magnitude = hypot, '
              'angle = degrees(atan2(first, second)), order of groups = first appearance, zernikes_to_magnitude_angle loses no class, '
              'top_n returns the k largest |c| in descending order with matching position and name; barplot_magnitudes draws one bar per class, label and height '
